@@ -14,9 +14,12 @@ EXPLANATION = (
     "GUARDED-DIVISION — every f64 division in compute_global_trust_internal and compute_multi_factor_adjustment has a non-zero "
     "constant divisor or is dominated by a > 0 / non-empty test on the divisor's source (no NaN / inf from 0/0); (3) CACHE — "
     "get_trust answers from trust_cache or the constant 0.0, and the cache is written with the vector the computation returns."
+    ' (4) FACTOR-* by abstract interpretation of compute_multi_factor_adjustment (interval enclosures and derivative signs over its unfolded paths, nothing executed): the multiplier is finite, never NaN, never negative for all u64 counters; non-decreasing in correct_responses and non-increasing in failed_responses inside each piece and across the `correct + failed > 0` split; a node without a statistics entry is given the all-zero record (first report moves the score in the reported direction). (5) NORMALISE-LAST — nothing touches the vector after the division by its sum. (6) JACOBI — no score map is both looked up and written by key inside one loop (no order-dependent in-place sweep).'
 )
-NOT_DECIDED = ("sum-to-one, scores within [0,1], monotonicity in reports (the author-reported 'first success lowers the score' is a numeric defect "
-               "these rules cannot see), equal-history determinism, convergence")
+NOT_DECIDED = ("sum-to-one beyond NORMALISE-LAST, monotonicity of the power iteration itself in a report (the statistics multiplier is one factor of it), "
+               "float-rounding determinism, convergence")
+TECHNIQUE = ('static analysis: custom MIR rules over a rustc_private fact dump (who-writes tables, guarded divisions, loop dataflow) plus '
+             'abstract interpretation of a loop-free numeric body (interval enclosures and derivative signs over unfolded paths)')
 ASSUMPTIONS = ["IEEE-754 division of finite operands by a positive finite divisor is finite"]
 
 ENG = 'adaptive::trust::EigenTrustEngine'
